@@ -53,6 +53,9 @@ type callSpec struct {
 	Payload     *idl.V            `json:"payload,omitempty"`
 	SubMW       []mwSpec          `json:"sub_mw,omitempty"`
 	PubMW       []mwSpec          `json:"pub_mw,omitempty"`
+	Twin            string        `json:"twin,omitempty"`
+	PresetRespHeaders map[string]string `json:"preset_resp_headers,omitempty"`
+	Repeat          bool          `json:"repeat,omitempty"`
 	SubErrorable    bool          `json:"sub_errorable,omitempty"`
 	SubHandlerFails bool          `json:"sub_handler_fails,omitempty"`
 	Frames      []string          `json:"frames,omitempty"`
